@@ -27,12 +27,16 @@ def _flock(path: Path):
     return f
 
 
-def lean_build() -> tuple[bool, str]:
-    """`lake build` (library, proofs, driver), serialised across concurrent checks."""
+def lean_build(modules=()) -> tuple[bool, str]:
+    """`lake build driver <modules of the property>`, serialised across concurrent checks.
+    If only an extraction obligation (Panoptica/Extracted) fails, the driver is still built."""
     lock = _flock(LEAN / ".lake" / "verif-build.lock")
     try:
-        p = subprocess.run(["lake", "build"], cwd=LEAN, capture_output=True, text=True)
-        return p.returncode == 0, (p.stdout + p.stderr)
+        p = subprocess.run(["lake", "build", "driver", *modules], cwd=LEAN, capture_output=True, text=True)
+        out = p.stdout + p.stderr
+        if p.returncode != 0:
+            subprocess.run(["lake", "build", "driver"], cwd=LEAN, capture_output=True, text=True)
+        return p.returncode == 0, out
     finally:
         lock.close()
 
